@@ -36,7 +36,7 @@ CW = 'chainables.courier_worker'
 
 
 def run(ctx: Ctx):
-  for r in (r1, r2, r3, r4, r5, r6, r7, r10, r11, r13, r14, r15, r16, r17, r18, r20, r22):
+  for r in (r1, r2, r3, r4, r5, r6, r7, r10, r11, r13, r14, r15, r16, r17, r18, r20, r22, r25):
     ctx.guard(r)
   from mlmverif.props import c03
   from mlmverif.props import c03 as _c03x, c17 as _c17x
@@ -881,11 +881,45 @@ def r22(ctx: Ctx):
   ctx.floor(rule, 1, n)
 
 
+def r25(ctx: Ctx):
+  rule = 'R-C16-25'
+  ctx.rule(rule, '"the same multiset of output batches and the same aggregate result": the per-shard iterator of the sharded runner'
+           ' is switched by the caller\'s two flags — batches are returned iff the caller wants batch output, states iff an'
+           ' aggregate is to be computed. An argument-selection check over the `.iterate(...)` call of'
+           ' sharded_pipelines_as_iterator: the value given to `with_result` is the name that speaks of batches/outputs, the'
+           ' value given to `with_agg_state` the one that speaks of the aggregate (agg) — crossed, a run with batch output'
+           ' but no result queue yields None per batch, and one with a result queue but no batch output merges zero states')
+  mi = ctx.repo.module('chainables.orchestrate')
+  fi = mi.functions.get('sharded_pipelines_as_iterator')
+  if fi is None:
+    raise AnalysisError(f'{rule}: sharded_pipelines_as_iterator not found')
+  n = 0
+  for c in ast.walk(fi.node):
+    if not (isinstance(c, ast.Call) and isinstance(c.func, ast.Attribute) and c.func.attr == 'iterate'):
+      continue
+    wr, ws = kwarg(c, 'with_result'), kwarg(c, 'with_agg_state')
+    if wr is None or ws is None:
+      continue
+    n += 1
+    names = lambda e: ' '.join(y.id for y in ast.walk(e) if isinstance(y, ast.Name)).lower()
+    crossed = ('agg' in names(wr) and 'agg' not in names(ws)) or (('batch' in names(ws) or 'output' in names(ws)) and 'agg' not in names(ws))
+    what = 'sharded_pipelines_as_iterator: with_result follows the batch-output flag, with_agg_state the aggregate flag'
+    if crossed:
+      ctx.fail(rule, fi, what,
+               f'`with_result={unparse(wr)}, with_agg_state={unparse(ws)}`: the two switches are crossed — the shards return batches when'
+               ' an aggregate was asked for and states when batches were asked for', node=c)
+    else:
+      ctx.ok(rule, fi, what, c)
+  ctx.floor(rule, 1, n)
+
+
 from mlmverif.selfcheck import B, OK  # noqa: E402
 
 _T = 'chainables/transform.py'
 _O = 'chainables/orchestrate.py'
 VARIANTS = [
+    B('shard-iterator-switches-crossed', 'chainables/orchestrate.py',
+      "          with_result=with_batch_output,\n          with_agg_state=calculate_agg_result,", "          with_result=calculate_agg_result,\n          with_agg_state=with_batch_output,", 'R-C16-25'),
     B('aggregating-middle-stage-drops-its-outputs', 'chainables/orchestrate.py',
       "        aggregate_only=aggregate_only and is_last_stage,", "        aggregate_only=aggregate_only and bool(transform.agg_fns),", 'R-C16-23'),
     B('busy-worker-with-spare-parallelism-gets-a-shard', 'chainables/courier_worker.py',
